@@ -241,7 +241,23 @@ func init() {
 			nc := i.ts.Not(c)
 			res, vm := i.check(nc)
 			if i.cross != nil && res != Unknown {
+				e0 := i.cross.Stats.Errors
 				r2 := i.cross.Check(nc)
+				if i.cross.Stats.Errors > e0 && !i.cross.dead {
+					// the incremental session of the second solver broke (e.g. "push canceled"
+					// after a timeout under load): rebuild it from the path condition and ask
+					// once more; only errors of the rebuilt session count
+					i.cross.Stats.Errors = e0
+					if e0 == 0 {
+						i.cross.Stats.FirstError = ""
+					}
+					i.cross.HardReset()
+					i.cross.Push()
+					for _, t := range i.pcTerms {
+						i.cross.Assert(t)
+					}
+					r2 = i.cross.Check(nc)
+				}
 				if r2 != res && r2 != Unknown {
 					i.w.noteUnknown(fmt.Sprintf("solver disagreement on assertion %s: %s=%s %s=%s", label, i.solver.Name, res, i.cross.Name, r2))
 				}
